@@ -86,6 +86,9 @@ type Case struct {
 	Gate       int      `json:"gate"`       // 0: none; -1: last chunk; k > 0: chunk (k-1) mod n is pinned in flight (blocking reader) while another caller restores all other chunks
 	GateDup    bool     `json:"gate_dup"`   // a duplicate of the pinned chunk is submitted while the original is in flight
 	Boundary   string   `json:"boundary,omitempty"` // how the chunk size was derived (size == recomputed estimate of a chunk, +-1); informational
+	Leftover   string   `json:"leftover,omitempty"` // the checkpoint directory already holds files of an earlier attempt for the same root: "full" (a complete earlier checkpoint, meta removed), "partial" (some of its chunk files removed too), "junk" (arbitrary stale files, longer and shorter than the new chunks)
+	PrevSize   uint64   `json:"prev_size,omitempty"`
+	PrevThr    uint16   `json:"prev_threads,omitempty"`
 	FullAbort  bool     `json:"full_abort"` // restarts also AbortMultipartInsert + StartMultipartInsert (else only the restorer is restarted and the multipart insert continues)
 	Corrupt    string   `json:"corrupt"`    // "" flip trunc swap digest other other-digest empty
 	CorruptIdx int      `json:"corrupt_idx"`
@@ -286,6 +289,68 @@ func createOnce(s *source, size uint64, threads uint16) (*ckpt, error) {
 		c.chunks = append(c.chunks, buf.Bytes())
 	}
 	return c, nil
+}
+
+// createOver creates the checkpoint in a directory that already holds the
+// leftovers of an earlier, interrupted attempt for the same root (creator
+// killed between writing the chunks and the metadata, or DeleteCheckpoint
+// interrupted after removing the metadata) and returns what GetCheckpointChunk
+// serves afterwards.
+func createOver(s *source, c Case) (*ckpt, error) {
+	cpCounter++
+	dir := filepath.Join(s.dir, fmt.Sprintf("cpo%d", cpCounter))
+	defer os.RemoveAll(dir)
+	fc, err := checkpoint.NewFileCreator(dir, s.ndb)
+	if err != nil {
+		return nil, err
+	}
+	ctx := context.Background()
+	cpDir := filepath.Join(dir, fmt.Sprint(s.root.Version), s.root.Hash.String())
+	chunksDir := filepath.Join(cpDir, "chunks")
+	r := prng.New(c.RSeed ^ 0x1EF7)
+	if c.Leftover == "junk" {
+		if err := os.MkdirAll(chunksDir, 0o700); err != nil {
+			return nil, err
+		}
+		for i := 0; i < 1+r.Intn(12); i++ {
+			n := []int{0, 1, 7, 40, 300, 5000, 70000}[r.Intn(7)]
+			if err := os.WriteFile(filepath.Join(chunksDir, fmt.Sprint(i)), r.Bytes(n), 0o600); err != nil {
+				return nil, err
+			}
+		}
+	} else {
+		prev, err := fc.CreateCheckpoint(ctx, s.root, c.PrevSize, c.PrevThr)
+		if err != nil {
+			return nil, err
+		}
+		if err := os.Remove(filepath.Join(cpDir, "meta")); err != nil {
+			return nil, err
+		}
+		if c.Leftover == "partial" {
+			for i := range prev.Chunks {
+				if r.Chance(50) {
+					_ = os.Remove(filepath.Join(chunksDir, fmt.Sprint(i)))
+				}
+			}
+		}
+	}
+	meta, err := fc.CreateCheckpoint(ctx, s.root, c.ChunkSize, c.Threads)
+	if err != nil {
+		return nil, err
+	}
+	out := &ckpt{meta: meta}
+	for i := range meta.Chunks {
+		cm, err := meta.GetChunkMetadata(uint64(i))
+		if err != nil {
+			return nil, err
+		}
+		var buf bytes.Buffer
+		if err := fc.GetCheckpointChunk(ctx, cm, &buf); err != nil {
+			return nil, err
+		}
+		out.chunks = append(out.chunks, buf.Bytes())
+	}
+	return out, nil
 }
 
 // ---------- independent chunk decoder ----------
@@ -817,6 +882,34 @@ func runCase(c Case) (res *result) {
 		res.v("create-checkpoint-failed: %v", err)
 		return
 	}
+	if c.Leftover != "" {
+		// the directory is not empty: what is served afterwards must still be
+		// exactly what a creation into an empty directory writes
+		over, err := createOver(s, c)
+		if err != nil {
+			res.v("create-checkpoint-over-leftovers-failed: %v", err)
+			return
+		}
+		res.s("leftover:" + c.Leftover)
+		if len(over.meta.Chunks) != len(cp.meta.Chunks) {
+			res.v("metadata-differs-after-leftovers (%d vs %d chunks; leftovers=%s of size=%d threads=%d)", len(over.meta.Chunks), len(cp.meta.Chunks), c.Leftover, c.PrevSize, c.PrevThr)
+		} else {
+			for i := range over.chunks {
+				var h hash.Hash
+				h.FromBytes(over.chunks[i])
+				if !over.meta.Chunks[i].Equal(&cp.meta.Chunks[i]) {
+					res.v("metadata-differs-after-leftovers (digest of chunk %d)", i)
+					break
+				}
+				if !h.Equal(&over.meta.Chunks[i]) {
+					res.v("served-chunk-is-not-the-chunk-written chunk %d of %d: served %d bytes, written %d bytes (leftovers=%s of size=%d threads=%d)", i, len(over.chunks), len(over.chunks[i]), len(cp.chunks[i]), c.Leftover, c.PrevSize, c.PrevThr)
+					break
+				}
+			}
+		}
+		// the usual restore runs from what is served
+		cp = over
+	}
 	checkChunks(s, cp, c.ChunkSize, c.Threads, res)
 	n := len(cp.chunks)
 	if n == 0 {
@@ -1302,6 +1395,19 @@ func genCases(r *prng.R, i int, maxN int, perTree int) []Case {
 			c.AbortAt = r.Intn(1 << 20)
 		}
 		c.FullAbort = r.Chance(40)
+		if r.Chance(22) {
+			c.Leftover = []string{"full", "full", "partial", "junk"}[r.Intn(4)]
+			// mostly an earlier attempt with BIGGER chunks (its files are longer than the new ones)
+			switch r.Intn(4) {
+			case 0:
+				c.PrevSize = size/uint64(2+r.Intn(4)) + 1
+			case 1:
+				c.PrevSize = size
+			default:
+				c.PrevSize = size*uint64(2+r.Intn(20)) + total
+			}
+			c.PrevThr = uint16([]int{0, 0, 1, 3, 8}[r.Intn(5)])
+		}
 		if r.Chance(30) {
 			c.Gate = []int{1, -1, 1 + r.Intn(1<<20), 1 + r.Intn(1<<20)}[r.Intn(4)]
 			c.GateDup = r.Chance(35)
@@ -1349,6 +1455,11 @@ func shrink(c Case, kind string) Case {
 	cur := c
 	for _, f := range []func(*Case){
 		func(d *Case) { d.Goroutines = 1 },
+		func(d *Case) {
+			if d.Leftover != "" {
+				d.Leftover = "full"
+			}
+		},
 		func(d *Case) { d.GateDup = false },
 		func(d *Case) {
 			if d.Gate != 0 {
